@@ -668,6 +668,13 @@ static void one_case(vh::Ctx & c, uint64_t idx)
   sc.producers = 1 + (int)((idx / NSCEN) % 4); sc.consumers = 1 + (int)((idx / (NSCEN * 4)) % 4);
   bool thorough = c.tier == "thorough";
   sc.ops = (thorough ? 60000 : 12000) + (uint64_t)r.range(0, 2000);
+  if (s == 1 && (idx / NSCEN) % 4 == 0) {
+    // the real-time-order monitor of the optional slot needs exactly one producer and one consumer:
+    // every fourth SharedOptionalVariable case is 1 x 1 (or 1 x N on odd rounds) and four times longer
+    const uint64_t round = idx / (NSCEN * 4);
+    sc.producers = 1; sc.consumers = (round % 2 == 0) ? 1 : 1 + (int)(round % 4);
+    if (sc.consumers == 1) {sc.ops *= 4;}
+  }
   sc.yield_permille = (int)(((idx / NSCEN) % 3) == 0 ? 0 : r.range(1, 30));
   g_yield_permille.store(sc.yield_permille);
   g_seed_salt.store(vh::mix(c.seed, idx) | 1);
